@@ -36,12 +36,25 @@ import fake_net
 from vinegar.tftp import server as S
 from vinegar.tftp.protocol import TransferMode
 
+DST = ("::1", 69, 0, 0)
 REQ = ("::1", 40001, 0, 0)
 REQ0 = ("2001:db8::9", 0, 0, 0)          # source port 0: cannot be replied to
 PROBE_ADDR = ("::1", 40002, 0, 0)
 PROBE = b"\x00\x02probe\x00octet\x00"   # a write request: the live server answers ERROR 2
-DST = ("::1", 69, 0, 0)
 SOURCES = [REQ, REQ0]
+# ancillary data of recvmsg when the server uses IPV6_RECVPKTINFO, and the server address the transfer must get:
+# none at all (legal: the option may not be honoured), the RFC 3542 in6_pktinfo (16 address bytes + interface
+# index), an unrelated control message before it, only an unrelated one
+_PKT = real_socket.inet_pton(real_socket.AF_INET6, "2001:db8::5") + b"\x02\x00\x00\x00"
+ANCILLARY = {
+    None: ([], DST),                                             # server without pktinfo: recvfrom is used
+    "none": ([], DST),
+    "pktinfo": ([(real_socket.IPPROTO_IPV6, real_socket.IPV6_PKTINFO, _PKT)], ("2001:db8::5",) + DST[1:]),
+    "other+pktinfo": ([(real_socket.SOL_SOCKET, 29, b"\x00" * 16),
+                       (real_socket.IPPROTO_IPV6, real_socket.IPV6_PKTINFO, _PKT)], ("2001:db8::5",) + DST[1:]),
+    "other": ([(real_socket.IPPROTO_IPV6, 52, b"\x00" * 4)], DST),
+}
+PKTINFO_KINDS = [None, "none", "pktinfo", "other+pktinfo", "other"]
 ALPHABET = [0, 1, 2, 3, 4, 5, 6, 8, 9, 0x61, 0xff]
 UNSENDABLE_CLAUSE = "C09:port_reply_unsendable_logged"
 
@@ -102,6 +115,11 @@ class _ServerSock:
         self.port.server._shutdown_requested = True     # what stop() does; the loop leaves at its next round
         raise real_socket.timeout("timed out")
 
+    def recvmsg(self, n, ancsize=0):
+        """used when the server has IPV6_RECVPKTINFO: ancillary data as the scripted kind says"""
+        data, addr = self.recvfrom(n)
+        return data, list(ANCILLARY[self.port.pktinfo][0]), 0, addr
+
     def sendto(self, data, addr):
         self.port.events.append((self.current, "send", bytes(data), addr))
         if addr[1] == 0:
@@ -140,19 +158,22 @@ class Port:
         self.server = S.TftpServer(self.handlers, bind_address="::1", bind_port=0)
         self.sock = _ServerSock(self)
 
-    def react(self, datagram, src, exclog):
-        """canonical observation of what the serve loop did for one datagram, followed by a liveness probe"""
+    def react(self, items, exclog, pktinfo=None):
+        """canonical observations of what ONE run of the serve loop did for the datagrams `items` = [(datagram,
+        source address), ...] arriving one after the other, followed by a liveness probe; one observation per item"""
         del self.events[:]
         del self.created[:]
         exclog.port = self
         srv = self.server
-        self.sock.script = [(bytes(datagram), src), (PROBE, PROBE_ADDR)]
+        self.pktinfo = pktinfo
+        self.sock.script = [(bytes(d), src) for (d, src) in items] + [(PROBE, PROBE_ADDR)]
         self.sock.current = -1
         srv._socket = self.sock
-        srv._have_pktinfo = False
+        srv._have_pktinfo = pktinfo is not None
         srv._shutdown_requested = False
         port = self
         clock = [0.0]
+        want_dst = ANCILLARY[pktinfo][1]
 
         class Rec(port.real_request_class):
             def __init__(self, filename, transfer_mode, options, client_address, server_address, handler_function,
@@ -169,46 +190,51 @@ class Port:
         old = (S.socket, S.time, S._TftpReadRequest)
         S.socket, S.time, S._TftpReadRequest = shim, types.SimpleNamespace(monotonic=lambda: clock[0]), Rec
         escaped = None
+        hang = False
         try:
             try:
                 srv._run()
             except BaseException as ex:                 # nothing may escape the serve loop
                 escaped = type(ex).__name__
-            hang = False
             for r in self.created:
                 r._thread.join(20)
                 hang = hang or r._thread.is_alive()
         finally:
             S.socket, S.time, S._TftpReadRequest = old
             srv._shutdown_requested = False
-        obs = []
-        probe_replies = []
+        n = len(items)
+        obs = [[] for _ in range(n)]
+        probe_events = []
         for e in self.events:
-            if e[0] == 1:
-                probe_replies.append(e)
+            if e[0] >= n or e[0] < 0:
+                probe_events.append(e)
                 continue
+            src = items[e[0]][1]
             if e[1] == "send":
                 p = T.parse_packet(e[2])
-                obs.append(p if (p[0] == 5 and e[3] == src) else [99, e[2]])
+                obs[e[0]].append(p if (p[0] == 5 and e[3] == src) else [99, e[2]])
             elif e[1] == "start":
                 _, _, fn, mode, opts, cli, dst, idx = e
-                if cli == src and dst == DST and isinstance(mode, TransferMode):
-                    obs.append([1, fn.encode("latin-1", "replace"), int(mode),
-                                [[k.encode("latin-1", "replace"), v.encode("latin-1", "replace")] for k, v in opts.items()],
-                                idx])
+                if cli == src and dst == want_dst and isinstance(mode, TransferMode):
+                    obs[e[0]].append([1, fn.encode("latin-1", "replace"), int(mode),
+                                      [[k.encode("latin-1", "replace"), v.encode("latin-1", "replace")]
+                                       for k, v in opts.items()], idx])
                 else:
-                    obs.append([99, repr(e).encode("latin-1", "replace")[:200]])
+                    obs[e[0]].append([99, repr(e[2:]).encode("latin-1", "replace")[:200]])
             else:
-                obs.append([4])
-        if escaped is not None:
-            obs.append([99, b"exception escaped TftpServer._run: " + escaped.encode()])
-        if hang:
-            obs.append([99, b"transfer thread did not end"])
+                obs[e[0]].append([4])
+        last_taken = min(self.sock.current, n - 1)
+        for i in range(last_taken + 1, n):                # never taken off the socket: the loop had ended
+            obs[i].append([7])
         # alive = the probe was taken off the socket and answered (what it is answered with is a case of its own)
-        alive = (not self.sock.script
-                 and any(e[1] == "send" and e[3] == PROBE_ADDR for e in probe_replies))
-        if not alive:
-            obs.append([7])
+        alive = (not self.sock.script and any(e[1] == "send" and e[3] == PROBE_ADDR for e in probe_events))
+        if n and last_taken == n - 1:
+            if escaped is not None:
+                obs[n - 1].append([99, b"exception escaped TftpServer._run: " + escaped.encode()])
+            if hang:
+                obs[n - 1].append([99, b"transfer thread did not end"])
+            if not alive:
+                obs[n - 1].append([7])
         return obs
 
 
@@ -300,7 +326,7 @@ def near_number_rrqs(tier, rng):
         yield rrq(b"f", b"octet", [(b"timeout", v), (b"TimeOut", b"3")])
 
 
-def gen_cases(tier, rng):
+def gen_single(tier, rng):
     """cases = (datagram, handler set, source): source 0 = ordinary requester, 1 = requester with source port 0
     (every reply to it fails in sendto)"""
     quick = tier == "quick"
@@ -333,53 +359,113 @@ def gen_cases(tier, rng):
         yield (d, rng.randrange(len(HANDLER_SETS)), 1 if rng.random() < 0.1 else 0)
 
 
+def gen_cases(tier, rng):
+    """case = (items, handler set, pktinfo kind); items = tuple of (datagram, source): what arrives during ONE run of
+    the serve loop.  Single datagrams first, then histories of 3-5 datagrams (a reply that cannot be sent, a started
+    transfer, an undecodable request ... followed by ordinary ones), then the recvmsg/ancillary-data variants."""
+    quick = tier == "quick"
+    pool = []
+    # the single-datagram scope arrives in groups of 8 per run of the serve loop (the reaction to a datagram does
+    # not depend on what arrived before it: theorem C09_serve_loop_total; a failing group is shrunk to one datagram)
+    groups = {}
+    for (d, h, src) in gen_single(tier, rng):
+        g = groups.setdefault(h, [])
+        g.append((d, src))
+        if len(g) == 8:
+            yield (tuple(g), h, None)
+            del g[:]
+        if len(pool) < 3000 and (len(d) > 4 or rng.random() < 0.02):
+            pool.append((d, src))
+    for h, g in groups.items():
+        if g:
+            yield (tuple(g), h, None)
+    special = [(b"\x00\x02", 1), (b"\x00\x01", 1), (rrq(b"f", b"octet", []), 1), (rrq(b"f", b"octet", []), 0),
+               (rrq(b"nofile", b"mail", []), 1), (b"\x00\x05\x00\x01x\x00", 1), (b"", 1), (b"\x00", 0),
+               (rrq(b"f", b"octet", [(b"blksize", b"1024x")]), 0), (rrq(b"f", b"octet", [(b"timeout", b"5s")]), 1)]
+    for _ in range(400 if quick else 6000):
+        k = rng.randrange(3, 6)
+        items = tuple(rng.choice(special) if rng.random() < 0.5 else rng.choice(pool) for _k in range(k))
+        yield (items, rng.randrange(len(HANDLER_SETS)), None)
+    for a in special:                                   # each special datagram alone
+        for h in range(len(HANDLER_SETS)):
+            yield ((a,), h, None)
+    for a in special:                                   # every special datagram first, second and last of three
+        for b in special[:6]:
+            yield ((a, b, special[3]), rng.choice(SERVING_SETS), None)
+            yield ((special[3], a, b), rng.choice(SERVING_SETS), None)
+    for pk in PKTINFO_KINDS[1:]:
+        for (d, src) in special + [rng.choice(pool) for _k in range(20 if quick else 300)]:
+            for h in (0, 3, 1):
+                yield (((d, src),), h, pk)
+        yield (tuple(special[:4]), 0, pk)
+
+
 # ----------------------------------------------------------------------------- evaluation
 def line(d, hs_index, src, obs):
     return sx([[d, [handler_sx(s) for s in HANDLER_SETS[hs_index]], SOURCES[src][1] != 0], obs])
 
 
 def evaluate(cases, ports, exclog):
-    obs = [ports[h].react(d, SOURCES[src], exclog) for (d, h, src) in cases]
-    outs = common.run_model("c09port", [line(d, h, src, o) for (d, h, src), o in zip(cases, obs)])
+    """-> [(case, impl observations per item, model observations per item, clauses failed on the model, ... on impl)]"""
+    obs = [ports[h].react([(d, SOURCES[src]) for (d, src) in items], exclog, pk) for (items, h, pk) in cases]
+    lines = [line(d, h, src, o) for (items, h, pk), ol in zip(cases, obs) for (d, src), o in zip(items, ol)]
+    outs = iter(common.run_model("c09port", lines))
     res = []
-    for case, o, out in zip(cases, obs, outs):
-        if out.startswith("!") or out.startswith("#"):
-            raise RuntimeError(f"c09port: driver rejected case {case!r} -> {out[:100]}")
-        r = unsx(out)
-        res.append((case, o, r[0], names(r[1]), names(r[2])))
+    for case, ol in zip(cases, obs):
+        ms, fm, fi = [], [], []
+        for (d, src), o in zip(case[0], ol):
+            out = next(outs)
+            if out.startswith("!") or out.startswith("#"):
+                raise RuntimeError(f"c09port: driver rejected case {case!r} -> {out[:100]}")
+            r = unsx(out)
+            ms.append(r[0])
+            fm += [x for x in names(r[1]) if x not in fm]
+            fi += [x for x in names(r[2]) if x not in fi]
+        res.append((case, ol, ms, fm, fi))
     return res
 
 
 def is_known_shape(case, failed):
-    """exactly the situation of finding D22: requester with source port 0, the only failed clause is the logged
-    OSError of the one reply that could not be sent"""
-    return case[2] == 1 and list(failed) == [UNSENDABLE_CLAUSE]
+    """exactly the situation of finding D22: the only failed clause is the logged OSError of a reply that could not be
+    sent (the Coq checker gives that clause only for a requester with source port 0, for the one attempted reply,
+    with nothing else wrong)"""
+    return any(src == 1 for (_d, src) in case[0]) and list(failed) == [UNSENDABLE_CLAUSE]
 
 
 def shrink(case, ports, exclog, keep):
-    """greedy: drop bytes while `keep(case, failed_clauses)` stays true (handler set and source are kept)"""
-    d, h, src = case
+    """greedy: drop whole datagrams of a history, then bytes, while `keep(case, failed_clauses)` stays true"""
+    items, h, pk = case
     improved = True
     steps = 0
-    while improved and steps < 300:
+    while improved and steps < 400:
         improved = False
-        for i in range(len(d)):
-            cand = (d[:i] + d[i + 1:], h, src)
+        cands = [items[:i] + items[i + 1:] for i in range(len(items))] if len(items) > 1 else []
+        for j, (d, src) in enumerate(items):
+            cands += [items[:j] + ((d[:i] + d[i + 1:], src),) + items[j + 1:] for i in range(len(d))]
+        if pk is not None:
+            cands.append(None)
+        for cand in cands:
             steps += 1
-            (_, _o, _m, _fm, fi), = evaluate([cand], ports, exclog)
-            if keep(cand, fi):
-                d = cand[0]
+            c2 = (items, h, None) if cand is None else (cand, h, pk)
+            (_, _o, _m, _fm, fi), = evaluate([c2], ports, exclog)
+            if keep(c2, fi):
+                items, pk = c2[0], c2[2]
                 improved = True
                 break
-    return (d, h, src)
+            if steps >= 400:
+                break
+    return (items, h, pk)
 
 
 def show(case):
-    d, h, src = case
+    items, h, pk = case
+    d = items[-1][0]
     # "content"/"events" are present so that the show() of the TFTP transfer checks (C01.show) can print the case
-    return {"_extra": True, "part": "request-port", "datagram_hex": d.hex(),
-            "datagram": common._jsonable(d), "handlers": [[k, common._jsonable(a)] for (k, a) in HANDLER_SETS[h]],
-            "source": list(SOURCES[src]), "source_port_zero": SOURCES[src][1] == 0,
+    return {"_extra": True, "part": "request-port",
+            "datagrams": [{"hex": x.hex(), "source": list(SOURCES[src])} for (x, src) in items],
+            "datagram_hex": d.hex(), "handlers": [[k, common._jsonable(a)] for (k, a) in HANDLER_SETS[h]],
+            "recvmsg_ancillary_data": pk,
+            "source_port_zero": any(SOURCES[src][1] == 0 for (_x, src) in items),
             "content": bytes(d), "events": []}
 
 
@@ -400,7 +486,8 @@ def port_checks(tier, rng, report):
     logger.setLevel(logging.DEBUG)
     logger.propagate = False
     stats = {"port_evaluations": 0, "port_disagreements": 0, "port_impl_failures": 0, "port_model_failures": 0,
-             "port_source_port_zero_cases": 0, "port_unsendable_reply_logged_D22": 0,
+             "port_source_port_zero_cases": 0, "port_unsendable_reply_logged_D22": 0, "port_histories": 0,
+             "port_recvmsg_cases": 0,
              "port_reactions": {"nothing": 0, "error1": 0, "error2": 0, "error4": 0, "start": 0, "other": 0}}
     failing = []
     known_like = []
@@ -411,13 +498,17 @@ def port_checks(tier, rng, report):
 
         def flush():
             for (case, o, m, fm, fi) in evaluate(batch, ports, exclog):
-                stats["port_evaluations"] += 1
-                stats["port_source_port_zero_cases"] += case[2]
-                core = [x for x in o if x != [4]]
-                key = ("nothing" if not core else
-                       "start" if core[0][0] == 1 and len(core) == 1 else
-                       f"error{core[0][1]}" if core[0][0] == 5 and len(core) == 1 and core[0][1] in (1, 2, 4) else "other")
-                stats["port_reactions"][key] += 1
+                stats["port_evaluations"] += len(case[0])
+                stats["port_histories"] += 1 if len(case[0]) > 1 else 0
+                stats["port_recvmsg_cases"] += 1 if case[2] is not None else 0
+                for (d_, src_), oi in zip(case[0], o):
+                    stats["port_source_port_zero_cases"] += src_
+                    core = [x for x in oi if x != [4]]
+                    key = ("nothing" if not core else
+                           "start" if core[0][0] == 1 and len(core) == 1 else
+                           f"error{core[0][1]}" if core[0][0] == 5 and len(core) == 1 and core[0][1] in (1, 2, 4)
+                           else "other")
+                    stats["port_reactions"][key] += 1
                 if o != m:
                     stats["port_disagreements"] += 1
                 if is_known_shape(case, fi) and o == m:
